@@ -36,7 +36,11 @@ pub fn handle(op: &str, req: &Value) -> Option<Value> {
             if !a.0.is_nan() && !b.0.is_nan() && a.0 < b.0 && ab != 1 { bad = true; }
             if a.0.to_bits() == b.0.to_bits() && a.1 > b.1 && ab != 1 { bad = true; }
             if a.0.is_nan() && a.0.is_sign_positive() && !b.0.is_nan() && ab != -1 { bad = true; }
-            json!({"ab": ab, "ba": ba, "bc": bc, "ac": ac, "aa": aa, "violates": bad})
+            // the heap compares through partial_cmp: it must agree with cmp on every pair
+            let pcmp = |x: (f64, u64), y: (f64, u64)| graph_engine::verif_dijkstra_partial_cmp(x.0, x.1, y.0, y.1);
+            let (pab, pba, pbc, pac) = (pcmp(a, b), pcmp(b, a), pcmp(b, c), pcmp(a, c));
+            if pab != ab || pba != ba || pbc != bc || pac != ac { bad = true; }
+            json!({"ab": ab, "ba": ba, "bc": bc, "ac": ac, "aa": aa, "partial_ab": pab, "partial_ba": pba, "violates": bad})
         },
         "tcp_frame" => {
             use tensor_chain::network::Message;
